@@ -2,7 +2,9 @@
    Only statements.  Model: Async/Conn.v (Request::poll_input / poll_output / writeable, handler scripts).
    K a u = the content of the active stream still to come from parser state a over future bytes u (Parser/StreamSpec.v);
    [remaining w] = client bytes not yet delivered by the transport; acct = the conservation record of Async/ConnReads.v. *)
-From FV Require Import Base.Bytes Gen.Generated Parser.ReqModel Parser.ReqTargets Parser.StreamModel Parser.AbsStream Parser.StreamSpec Parser.StreamRefine Parser.StreamInv Async.Conn Async.ConnWrites Async.ConnTotal Async.ConnReads Async.ReadsWTargets Async.ReadsWProofs.
+From FV Require Import Base.Bytes Gen.Generated Parser.ReqModel Parser.ReqTargets Parser.StreamModel Parser.AbsStream Parser.StreamSpec Parser.StreamRefine Parser.StreamInv Async.Conn Async.ConnWrites Async.ConnTotal Async.ConnReads Async.ReadsWTargets Async.ReadsWProofs Codec.Varint Codec.NV Codec.Bodies Codec.Vars Parser.ReqWire Parser.StreamFinal Parser.EnvCanon Async.PeerTargets Async.PeerTargets2 Async.PeerTargets3 Async.PeerTargets4 Async.PeerProofs4 Async.BodyTargets Async.BodyProofs.
+From FV Require Import Codec.Varint Codec.NV Codec.Bodies Codec.Vars Parser.ReqWire Parser.ReqTargets Parser.AbsStream Parser.StreamSpec Parser.StreamFinal Parser.EnvCanon
+  Async.PeerTargets Async.PeerTargets2 Async.PeerTargets3 Async.PeerTargets4 Async.BodyTargets Async.BodyProofs.
 
 (* ==== pinned from the proof files (tools/write_props.py) ==== *)
 
@@ -138,6 +140,63 @@ Theorem C09_initial_gate :
   (len (Header.role_input_streams role) <=? 1) = true ->
   Header.next_input_stream role (Header.next_input_stream role None) = None.
 Proof. exact request_new_gate. Qed.
+
+(* WHOSE bytes: over a whole connection of the one-outstanding client (C07; requests within the documented
+   buffer bound, fault-free transport, every buffer size, handler scripts and readiness pattern) handler
+   invocation i is started with request i, the role's first input stream selected, nothing delivered yet, and
+   for EVERY input stream of the role the content still to come - the K / F of the trace law above, from whose
+   front every read takes its bytes - is exactly that stream's content in the records the client sent for
+   request i: nothing of an earlier or later request, nothing missing (run_loop_body = run_loop with a ghost
+   trace: C09_body_trace_is_ghost) *)
+Theorem C09_bodies_in_order :
+  forall (norm : bytes -> bytes) (maxc : N) (scripts : list (list N)) (B : N) 
+    (cs : list (N * N * creq)) (pairss : list (list (bytes * bytes))) (w0 : world),
+  B < SIZE_LIMIT - 8 ->
+  scripts_ok true scripts ->
+  segs w0 = enc_client cs ->
+  client_segs 0 0 cs ->
+  wlog w0 = [] ->
+  no_fault (wscript w0) ->
+  length pairss = length cs ->
+  (forall (i : nat) (c : creq) (ps : list (bytes * bytes)),
+   nth_error (map snd cs) i = Some c -> nth_error pairss i = Some ps -> creq_fits B c ps) ->
+  len (flat (segs w0)) < SIZE_LIMIT ->
+  let tr := snd (run_loop_body norm maxc (nb w0 + 4) (new_parser B) scripts 0 w0 []) in
+  (length tr <= length cs)%nat /\
+  (forall (i : nat) (rq : req) (a : ast) (u : bytes) (c : creq) (ps : list (bytes * bytes)),
+   nth_error tr i = Some (rq, a, u) ->
+   nth_error (map snd cs) i = Some c ->
+   nth_error pairss i = Some ps ->
+   rq = sent_request norm c ps /\
+   a_req a = rq /\
+   a_parsed a = [] /\
+   a_stream a = Header.next_input_stream (w_role (c_pre c)) None /\
+   (forall sg : N,
+    In sg (Header.role_input_streams (w_role (c_pre c))) ->
+    to_come sg a u = content_rcds (w_role (c_pre c)) (w_id (c_pre c)) (Some sg) (c_srs c))).
+Proof. exact bodies_in_order. Qed.
+
+(* the ghost trace is a pure addition to Conn.run_loop *)
+Theorem C09_body_trace_is_ghost :
+  forall (norm : bytes -> bytes) (maxc : N) (fuel : nat) (p : parser) (scripts : list (list N))
+    (served : nat) (w : world) (acc : list (req * ast * bytes)),
+  fst (run_loop_body norm maxc fuel p scripts served w acc) = run_loop norm maxc fuel p scripts served w.
+Proof. exact run_loop_body_erase. Qed.
+
+(* non-vacuity: two keep-alive Responder requests with bodies abc / de: the trace has two entries whose Stdin
+   content to come is abc / de *)
+Theorem C09_bodies_example :
+  let tr :=
+    snd (run_loop_body (fun b : bytes => b) 10 (nb ex4_w + 4) (new_parser 64) ex4_scripts 0 ex4_w []) in
+  length tr = 2%nat /\
+  map (fun e : req * ast * bytes => fst (fst e)) tr =
+  [{| r_id := 1; r_role := ROLE_Responder; r_flags := FLAG_KeepConn; r_env := ex4_ps1 |};
+   {| r_id := 2; r_role := ROLE_Responder; r_flags := FLAG_KeepConn; r_env := ex4_ps2 |}] /\
+  map (fun e : req * ast * bytes => to_come RT_Stdin (snd (fst e)) (snd e)) tr =
+  [[97; 98; 99]; [100; 101]] /\
+  map (fun e : req * ast * bytes => a_parsed (snd (fst e))) tr = [[]; []] /\
+  map (fun e : req * ast * bytes => a_stream (snd (fst e))) tr = [Some RT_Stdin; Some RT_Stdin].
+Proof. exact ex4_body_trace. Qed.
 
 (* writeable(): Ok means the gate is open — or the stale case spelled out in the statement (gate closed, final
    stream already selected, buffered data, reachable only after a parser error; see DESIGN.md, observation O1) *)
